@@ -7,7 +7,10 @@ use std::{
     time::Instant,
 };
 
-pub const VERIF_ROOT: &str = "/verif";
+/// where evidence, replays and known_findings.json live (the check script exports its own directory)
+pub fn verif_root() -> String {
+    std::env::var("VERIF_ROOT").unwrap_or_else(|_| "/verif".to_string())
+}
 
 #[derive(Clone, Copy, PartialEq, Eq, Debug)]
 pub enum Tier {
@@ -80,7 +83,7 @@ pub struct Finding {
 }
 
 pub fn load_findings() -> Vec<Finding> {
-    let p = Path::new(VERIF_ROOT).join("known_findings.json");
+    let p = Path::new(&verif_root()).join("known_findings.json");
     let Ok(txt) = std::fs::read_to_string(&p) else {
         return vec![];
     };
@@ -118,7 +121,7 @@ pub fn finish(args: &Args, started: Instant, mut report: Report) -> i32 {
     }
     let mut new_violations = 0;
     let mut known = 0;
-    let replay_dir = PathBuf::from(VERIF_ROOT).join("replays").join(id);
+    let replay_dir = PathBuf::from(verif_root()).join("replays").join(id);
     if args.replay.is_none() {
         // counterexamples of earlier runs are stale once the check has run again
         let _ = std::fs::remove_dir_all(&replay_dir);
@@ -164,7 +167,7 @@ pub fn finish(args: &Args, started: Instant, mut report: Report) -> i32 {
         "violations": new_violations,
     });
     if args.replay.is_none() {
-        let evdir = PathBuf::from(VERIF_ROOT).join("evidence");
+        let evdir = PathBuf::from(verif_root()).join("evidence");
         let _ = std::fs::create_dir_all(&evdir);
         std::fs::write(evdir.join(format!("{}.json", id)), serde_json::to_string_pretty(&ev).unwrap())
             .expect("cannot write evidence");
